@@ -3,6 +3,7 @@ SPEC = {
     "theorems": [
         "AM.Cluster.sound_init", "AM.Cluster.sound_step", "AM.Cluster.sound_run",
         "AM.Cluster.entry_implies_sent", "AM.Cluster.at_least_once",
+        "AM.Cluster.sent_congr", "AM.Cluster.slot_congr", "AM.Cluster.deliver_sets_slot", "AM.Cluster.healthy_step_refines",
         "AM.Cluster.quiet_after_record", "AM.Cluster.healthy_no_duplicate", "AM.Cluster.duplicate_without_gossip",
         "AM.Dedup.eligible_listed_or_recorded",
     ],
@@ -20,7 +21,7 @@ SPEC = {
             "replays every flush/deliver/gc/crash event on AM.Cluster and checks at_least_once, entry_implies_sent and healthy_no_duplicate on the implementation's "
             "own sends and entries; non-trivial = hits a tagged branch; distinct = distinct hash of the case's lines",
     "assumptions": [
-        "healthy_no_duplicate models the healthy cluster as one shared log consulted by the staggered flushes of a round (hypothesis H1: every entry recorded "
+        "healthy_no_duplicate is stated over one shared log consulted by the staggered flushes of a round; healthy_step_refines shows that per-instance logs agree with that shared log position by position when (hypothesis H1) every entry recorded "
         "by an earlier-positioned instance has been merged before a later-positioned instance's wait ends; equal clocks up to `skew` <= repeat_interval); "
         "duplicate_without_gossip shows the hypothesis is needed",
         "memberlist dissemination, real clock skew and TCP are not modelled (C19 covers the transport at the delegate level)",
